@@ -674,3 +674,27 @@ func VerifKernelEqualAliased() bool {
 	// distinct memory, same contents
 	return Equal(s[:2], []any{1.0, "a"}) && Equal(ints[:2], []int{7, 7})
 }
+
+// ---- C12: one JSON array in several Go representations under uniqueItems
+
+// VerifKernelUniqueMixedReps: [x, y] with x = []byte{a, b} and y the same JSON array held in
+// another Go representation is never unique, in either order; two different arrays are.
+func VerifKernelUniqueMixedReps(a, b int) bool {
+	if a < 0 || a > 255 || b < 0 || b > 255 {
+		return true
+	}
+	rs, err := (&Schema{UniqueItems: true}).Resolve(nil)
+	if err != nil {
+		return false
+	}
+	x := []byte{byte(a), byte(b)}
+	for _, y := range []any{[]any{float64(a), float64(b)}, []int{a, b}, []float64{float64(a), float64(b)}, [2]uint8{uint8(a), uint8(b)}, []uint8{uint8(a), uint8(b)}} {
+		if rs.Validate([]any{x, y}) == nil || rs.Validate([]any{y, x}) == nil {
+			return false
+		}
+	}
+	if rs.Validate([]any{x, []any{float64(a), float64(b + 1)}}) != nil {
+		return false
+	}
+	return true
+}
